@@ -208,26 +208,25 @@ func genOp(t *rapid.T, used map[string]bool) (Op, bool) {
 	return op, true
 }
 
-func genUpd(t *rapid.T, kind string, b Bias, usedTargets map[string]bool) (Upd, bool) {
+// genUpd draws one update. A plugin may name a target in several updates of one response,
+// but sets each (target, field) at most once (used tracks "target/field" and "target").
+func genUpd(t *rapid.T, kind string, b Bias, used map[string]bool) (Upd, bool) {
 	tg := append([]string{}, targets...)
-	if kind != "stop" || true {
-		tg = append(tg, "SELF")
-	}
+	tg = append(tg, "SELF")
 	u := Upd{Target: rapid.SampledFrom(tg).Draw(t, "target")}
-	if usedTargets[u.Target] {
-		return u, false
+	if used[u.Target] && rapid.IntRange(0, 2).Draw(t, "again") != 0 {
+		return u, false // mostly one update per target, sometimes several
 	}
-	usedTargets[u.Target] = true
+	used[u.Target] = true
 	if rapid.IntRange(0, 19).Draw(t, "nores") == 0 {
 		u.NoRes = true
 	} else {
 		n := rapid.IntRange(0, 4).Draw(t, "nfields")
 		all := allResFields()
-		seen := map[string]bool{}
 		for i := 0; i < n; i++ {
 			f := rapid.SampledFrom(all).Draw(t, "field")
-			if !seen[f] {
-				seen[f] = true
+			if !used[u.Target+"/"+f] {
+				used[u.Target+"/"+f] = true
 				u.Fields = append(u.Fields, f)
 			}
 		}
@@ -302,6 +301,9 @@ func GenCase(t *rapid.T, b Bias) Case {
 	if c.Kind == "create" && len(c.Chain) >= 2 && rapid.IntRange(0, 99).Draw(t, "append") < b.Append {
 		forceAppend(t, &c)
 	}
+	if len(c.Chain) >= 3 && rapid.IntRange(0, 99).Draw(t, "ignstory") < b.Collide/4+b.IgnoreFlags/4 {
+		forceIgnoredStory(t, &c)
+	}
 	if len(c.Chain) >= 2 && rapid.IntRange(0, 99).Draw(t, "nearmiss") < b.NearMiss {
 		forceNearMiss(t, &c)
 	}
@@ -349,6 +351,48 @@ func forceAppend(t *rapid.T, c *Case) {
 	}
 }
 
+// plugHasField tells whether a plugin already sets a field of a target in some update.
+func plugHasField(s *Script, target, field string) bool {
+	for _, u := range s.Updates {
+		if u.Target == target && has(u.Fields, field) {
+			return true
+		}
+	}
+	return false
+}
+
+// forceIgnoredStory writes a three-plugin story around a dropped ignore-failure update:
+// plugin i sets field G of target X; plugin j sets field F of X in one update and, in a
+// SEPARATE later update of the same response marked ignore-failure, G (which collides and
+// is dropped); plugin k then sets F of X again (flagged or not). F is owned by j, so k must
+// conflict (or be dropped if flagged) - whatever the dropped update did to the bookkeeping.
+func forceIgnoredStory(t *rapid.T, c *Case) {
+	n := len(c.Chain)
+	i := rapid.IntRange(0, n-3).Draw(t, "si")
+	j := rapid.IntRange(i+1, n-2).Draw(t, "sj")
+	k := rapid.IntRange(j+1, n-1).Draw(t, "sk")
+	tg := append([]string{}, targets...)
+	if c.Kind != "create" {
+		tg = append(tg, "SELF")
+	}
+	x := gen.Pick(t, "sx", tg)
+	all := allResFields()
+	fi := gen.Uniform(t, "sf", len(all))
+	gi := (fi + 1 + gen.Uniform(t, "sg", len(all)-1)) % len(all)
+	f, g := all[fi], all[gi]
+	a, b, d := &c.Chain[i], &c.Chain[j], &c.Chain[k]
+	if plugHasField(a, x, f) || plugHasField(b, x, f) || plugHasField(b, x, g) || plugHasField(d, x, g) {
+		return
+	}
+	if !plugHasField(a, x, g) {
+		a.Updates = append(a.Updates, Upd{Target: x, Fields: []string{g}})
+	}
+	b.Updates = append(b.Updates, Upd{Target: x, Fields: []string{f}}, Upd{Target: x, Fields: []string{g}, Ignore: true})
+	if !plugHasField(d, x, f) {
+		d.Updates = append(d.Updates, Upd{Target: x, Fields: []string{f}, Ignore: rapid.Bool().Draw(t, "signore")})
+	}
+}
+
 // forceNearMiss makes two plugins write sibling items that must NOT collide: two keys of
 // one keyed family, the same resource field of two different target containers, two
 // different fields of one target, or (create) a field of the created container through the
@@ -363,12 +407,13 @@ func forceNearMiss(t *rapid.T, c *Case) {
 		}
 	}
 	addUpd := func(s *Script, target, field string) {
+		if plugHasField(s, target, field) {
+			return
+		}
 		for k := range s.Updates {
 			if s.Updates[k].Target == target {
 				s.Updates[k].NoRes = false
-				if !has(s.Updates[k].Fields, field) {
-					s.Updates[k].Fields = append(s.Updates[k].Fields, field)
-				}
+				s.Updates[k].Fields = append(s.Updates[k].Fields, field)
 				return
 			}
 		}
@@ -465,20 +510,16 @@ func forceCollision(t *rapid.T, c *Case, i, j int) {
 	field := gen.Pick(t, "cfield", allResFields())
 	for _, idx := range []int{i, j} {
 		s := &c.Chain[idx]
+		if plugHasField(s, target, field) {
+			continue
+		}
 		found := false
 		for k := range s.Updates {
 			if s.Updates[k].Target == target {
 				found = true
 				s.Updates[k].NoRes = false
-				has := false
-				for _, f := range s.Updates[k].Fields {
-					if f == field {
-						has = true
-					}
-				}
-				if !has {
-					s.Updates[k].Fields = append(s.Updates[k].Fields, field)
-				}
+				s.Updates[k].Fields = append(s.Updates[k].Fields, field)
+				break
 			}
 		}
 		if !found {
